@@ -95,16 +95,17 @@ Emit == Len(hist) <= MaxOps \/ PrintT(<<"W", ToJson(hist)>>)
 (* ---------------- design-level properties (model-checked) ---------------- *)
 (* an operation that is not allowed changes nothing *)
 UnauthorizedIsNoop == [][(last' # last /\ ~last'.allowed) => present' = present]_vars
+(* the following four depend on cfg only (cfg never changes): evaluated in the initial states *)
 (* without a key for the class every request is allowed; with one, only a complete proof is *)
-NoKeyNoCheck == \A op \in Ops : cfg[Class(op)] = "" => \A t \in Tokens(cfg, op) : Allowed(cfg, op, t)
-ProofNeeded == \A op \in Ops : cfg[Class(op)] # "" => \A t \in Tokens(cfg, op) :
+NoKeyNoCheck == last # None \/ (\A op \in Ops : cfg[Class(op)] = "" => \A t \in Tokens(cfg, op) : Allowed(cfg, op, t))
+ProofNeeded == last # None \/ \A op \in Ops : cfg[Class(op)] # "" => \A t \in Tokens(cfg, op) :
                  Allowed(cfg, op, t) => /\ t.shape = "jwt" /\ t.alg \notin {"none", "RS256", "RS256hmac"}
                                         /\ t.key = cfg[Class(op)] /\ t.exp # "past" /\ t.nbf # "future"
                                         /\ t.claim \notin {"otherkey", "othercookie", "othervid", "vidonly", "empty", "nofid"}
 (* a token signed with the read key never authorises a write (and vice versa) when the keys differ *)
-KeySeparation == (cfg.w # "" /\ cfg.r # "" /\ cfg.w # cfg.r) =>
-                   /\ \A op \in {"upload", "delete"} : \A t \in Tokens(cfg, op) : t.key = cfg.r => ~Allowed(cfg, op, t)
-                   /\ \A op \in {"read", "head"} : \A t \in Tokens(cfg, op) : t.key = cfg.w => ~Allowed(cfg, op, t)
+KeySeparation == last # None \/ ((cfg.w # "" /\ cfg.r # "" /\ cfg.w # cfg.r) =>
+                   (/\ \A op \in {"upload", "delete"} : \A t \in Tokens(cfg, op) : t.key = cfg.r => ~Allowed(cfg, op, t)
+                    /\ \A op \in {"read", "head"} : \A t \in Tokens(cfg, op) : t.key = cfg.w => ~Allowed(cfg, op, t)))
 (* the valid token is allowed (the table is not vacuous) *)
-ValidAllowed == \A op \in Ops : Allowed(cfg, op, Valid(BaseKey(cfg, op)))
+ValidAllowed == last # None \/ \A op \in Ops : Allowed(cfg, op, Valid(BaseKey(cfg, op)))
 =============================================================================
